@@ -791,3 +791,143 @@ func settle(wd, stall time.Duration, done func() bool, progress func() int64) (f
 		time.Sleep(2 * time.Millisecond)
 	}
 }
+
+// ---------------------------------------------------------------------------
+// Deciding "it will never happen" on state: the process has come to rest.
+
+var goroutineHdr = regexp.MustCompile(`(?m)^goroutine (\d+) \[([^\],]+)[^\]]*\]:\n(\S+)`)
+
+type gState struct {
+	state string
+	top   string
+}
+
+func goroutineSnapshot() (map[int]gState, string) {
+	buf := make([]byte, 1<<20)
+	for {
+		n := runtime.Stack(buf, true)
+		if n < len(buf) {
+			buf = buf[:n]
+			break
+		}
+		buf = make([]byte, 2*len(buf))
+	}
+	out := map[int]gState{}
+	for _, m := range goroutineHdr.FindAllSubmatch(buf, -1) {
+		id, _ := strconv.Atoi(string(m[1]))
+		out[id] = gState{state: string(m[2]), top: string(m[3])}
+	}
+	return out, string(buf)
+}
+
+// blockedForGood lists the wait reasons of a goroutine that only another
+// goroutine can wake: channels, select, mutexes, condition variables,
+// wait groups. (A select or channel wait may also be on a timer channel; see
+// atRest.) Everything else - running, runnable, sleep, syscall, IO wait - counts
+// as alive.
+func blockedForGood(state string) bool {
+	switch {
+	case strings.HasPrefix(state, "chan receive"), strings.HasPrefix(state, "chan send"), strings.HasPrefix(state, "select"),
+		strings.HasPrefix(state, "semacquire"), strings.HasPrefix(state, "sync."):
+		return true
+	case strings.Contains(state, "GC "), strings.Contains(state, "finalizer"), strings.Contains(state, "idle"):
+		return true // runtime helpers
+	}
+	return false
+}
+
+// atRest decides whether the whole process has provably come to rest: three
+// goroutine dumps taken gap apart show the same goroutines, each parked in the
+// same place on a channel, select or lock, and none running, runnable, sleeping,
+// in a system call or waiting for I/O (the calling goroutine excepted). In that
+// state nothing can move unless the caller acts, so whatever is still pending
+// will stay pending: a hang is then a fact about the state, not about the
+// clock. Timers are the one thing this cannot see (a goroutine parked in a
+// select on a timer channel); the workloads that use atRest arm no timer of
+// their own and gap is chosen well above every timer in the delivery path of
+// the code under test (restart delay <= 1 ms in these workloads; request
+// timeouts are armed only where the caller passes the bound in).
+// The second result describes where the goroutines of the code under test are parked.
+func atRest(gap time.Duration) (bool, string) {
+	var prev map[int]gState
+	var dump string
+	me := curGoid()
+	for round := 0; round < 3; round++ {
+		if round > 0 {
+			time.Sleep(gap)
+		}
+		cur, d := goroutineSnapshot()
+		dump = d
+		delete(cur, me)
+		for id, g := range cur {
+			if !blockedForGood(g.state) {
+				return false, fmt.Sprintf("goroutine %d is %s in %s", id, g.state, g.top)
+			}
+		}
+		if prev != nil {
+			if len(prev) != len(cur) {
+				return false, "the set of goroutines changed"
+			}
+			for id, g := range cur {
+				if p, ok := prev[id]; !ok || p != g {
+					return false, fmt.Sprintf("goroutine %d moved", id)
+				}
+			}
+		}
+		prev = cur
+	}
+	return true, parkedSummary(dump)
+}
+
+func curGoid() int {
+	buf := make([]byte, 64)
+	n := runtime.Stack(buf, false)
+	f := strings.Fields(string(buf[:n]))
+	if len(f) > 1 {
+		id, _ := strconv.Atoi(f[1])
+		return id
+	}
+	return -1
+}
+
+// parkedSummary: for each goroutine with a frame of the code under test, its wait reason and
+// innermost such frame, counted.
+func parkedSummary(dump string) string {
+	counts := map[string]int{}
+	for _, blk := range strings.Split(dump, "\n\n") {
+		lines := strings.Split(blk, "\n")
+		if len(lines) == 0 || !strings.HasPrefix(lines[0], "goroutine ") {
+			continue
+		}
+		state := lines[0]
+		if i := strings.Index(state, "["); i >= 0 {
+			state = strings.TrimSuffix(strings.TrimSuffix(state[i:], ":"), "]") + "]"
+		}
+		for _, l := range lines[1:] {
+			if strings.HasPrefix(l, "github.com/anthdm/hollywood/") && !strings.Contains(l, "verifshim") {
+				fn := strings.TrimPrefix(l, "github.com/anthdm/hollywood/")
+				if j := strings.LastIndex(fn, "("); j > 0 {
+					fn = fn[:j]
+				}
+				counts[state+" "+fn]++
+				break
+			}
+		}
+	}
+	var keys []string
+	for k := range counts {
+		keys = append(keys, k)
+	}
+	sort.Strings(keys)
+	var parts []string
+	for _, k := range keys {
+		parts = append(parts, fmt.Sprintf("%dx %s", counts[k], k))
+	}
+	if len(parts) == 0 {
+		return "no goroutine is inside the code under test"
+	}
+	if len(parts) > 8 {
+		parts = append(parts[:8], "...")
+	}
+	return strings.Join(parts, "; ")
+}
